@@ -115,11 +115,12 @@ def _json_diff(a, b):
 
 
 def explore_case(case, st):
-    archs, threads, fmt, policy, bound, gates, max_execs = case
+    archs, threads, fmt, policy, bound, gates, max_execs = case[:7]
+    world_kw = case[7] if len(case) > 7 else None        # e.g. {'segment': 20}: the peers' bytes arrive in small TCP segments
     pol = policy_path() if policy else None
 
     def once(prefix):
-        res, s = MT.run_multi(list(archs), threads, fmt, prefix, gates, pol)
+        res, s = MT.run_multi(list(archs), threads, fmt, prefix, gates, pol, world_kw=world_kw)
         return (res, s), s.points
     nsched = 0
     outcomes = set()
@@ -134,7 +135,7 @@ def explore_case(case, st):
         st.extra['schedule_points'] += len(points)
         for sig, detail in check_run(list(archs), threads, fmt, policy, res, s):
             st.violation(sig, {'archs': list(archs), 'threads': threads, 'fmt': fmt, 'policy': policy, 'schedule': list(prefix),
-                               'gates': list(gates), 'what': detail})
+                               'gates': list(gates), 'world_kw': world_kw, 'what': detail})
     if max_execs is not None and nsched >= max_execs:
         st.caps.append('schedule cap %d hit for %s' % (max_execs, list(archs)))
     st.extra['distinct_thread_assignments'] += len(outcomes)
@@ -228,6 +229,10 @@ def cases(tier):
                 for order in ((f, h), (h, f)):
                     out.append((order, 1, 'text', False, 0, conn, None))
                     out.append((order, 2, 'json', False, 1, conn, None))
+        # small TCP segments, so that a single packet takes several receives, and a switch between any two of them
+        for a, b in (('SSH1', 'SSH1'), ('SSH1', 'TERR'), ('TERR', 'SSH1'), ('CLEAN', 'RSA1024')):
+            for seg in (16, 40):
+                out.append(((a, b), 2, 'text', False, 1, ('recv',), 1500, {'segment': seg}))
         # a switch at any one receive of either target (objects shared between two audits in flight show here)
         for a, b in itertools.product(ARCHS, ARCHS):
             out.append(((a, b), 2, 'text' if (ARCHS.index(a) + ARCHS.index(b)) % 2 else 'json', False, 1, ('recv',), 400))
@@ -367,7 +372,7 @@ def replay(path):
     v = json.load(open(path))
     d = v['detail']
     pol = policy_path() if d['policy'] else None
-    res, s = MT.run_multi(d['archs'], d['threads'], d['fmt'], d['schedule'], tuple(d['gates']), pol)
+    res, s = MT.run_multi(d['archs'], d['threads'], d['fmt'], d['schedule'], tuple(d['gates']), pol, world_kw=d.get('world_kw'))
     probs = check_run(d['archs'], d['threads'], d['fmt'], d['policy'], res, s)
     for sig, det in probs:
         print('replayed:', sig, json.dumps(det, default=repr)[:800])
